@@ -191,10 +191,11 @@ type ReplayFile struct {
 	Trace     []string        `json:"trace,omitempty"` // human readable schedule / fault / event excerpt
 }
 
-var pathNoise = regexp.MustCompile(`/[A-Za-z0-9_./-]*/(sstable_[a-z]*)[0-9]*`)
 var digits = regexp.MustCompile(`[0-9]+`)
 var quoted = regexp.MustCompile(`'[^']*'`)
 var hexes = regexp.MustCompile(`\[[0-9a-f ]+\]`)
+
+var absPath = regexp.MustCompile(`/[A-Za-z0-9_.\-]+(/[A-Za-z0-9_.\-]+)+`)
 
 // normErr strips paths and numbers from an error text so that it identifies the call-site chain only.
 func normErr(err error) string {
@@ -203,7 +204,16 @@ func normErr(err error) string {
 	}
 	s := err.Error()
 	s = quoted.ReplaceAllString(s, "'P'")
-	s = pathNoise.ReplaceAllString(s, "$1")
+	s = absPath.ReplaceAllStringFunc(s, func(p string) string {
+		parts := strings.Split(p, "/")
+		last := parts[len(parts)-1]
+		if len(parts) >= 2 {
+			if par := parts[len(parts)-2]; strings.Contains(par, "sstable") || par == "wal" {
+				return par + "/" + last
+			}
+		}
+		return last
+	})
 	s = hexes.ReplaceAllString(s, "[X]")
 	s = digits.ReplaceAllString(s, "N")
 	s = strings.ReplaceAll(s, "\n", "; ")
